@@ -51,6 +51,27 @@ CLAIMED = {
         technique="relational contract (stream reader vs datagram decoder) by symbolic execution of the real coroutine + SMT",
         note=TRUST + "; asyncio.StreamReader.readexactly contract trusted (chunking-independent), induction over messages",
     ),
+    "C02": dict(
+        category="other",
+        text="Entry codec, every option class (IPv4/IPv6 endpoint/multicast/SD-endpoint, load balancing, unknown types), configuration strings, the SD header split and flag bits are proved against the SOME/IP-SD layout for all field values and lengths (round trip with arbitrary suffix, layout by offset, 'unrepresentable fails or is rejected'); the parse/build loops are verified by loop contracts; _find is proved sound, index-safe and terminating with quantified invariants; assign-then-resolve is proved per entry for arbitrary shared arrays. The comprehension glue (assign_option_indexes/resolve_options over all entries) and send_sd are checked with a bounded number of entries, hence level other.",
+        design_ref="DESIGN.md 4/C02",
+        technique="contract refinement by symbolic execution of the real AST (byte ropes, loop contracts, quantified invariants, abstract contracts for loop-bearing callees) + SMT; bounded-shape symbolic check for the per-message glue",
+        note=TRUST + "; induction over the number of elements is the trusted rule applied to proved init/step/exit obligations; _find completeness not claimed; defect D1 repaired by fix commit feb6620",
+    ),
+    "C03": dict(
+        category="proof",
+        text="For buffers of arbitrary length every decoder (real body, callees by contract, loops by loop contract with variants) is proved to exit only by returning (value, suffix of the input) or by ParseError -- UnicodeDecodeError solely through the ASCII decoding of configuration text -- and to terminate; the receive paths (datagram loop, SD message_received with its five-field filter, sd_message_received dispatch, SimpleService.message_received) are proved never to raise and, for a message that is not a decodable SD notification, to leave session table, event loop, transport and entry processing untouched.",
+        design_ref="DESIGN.md 4/C03",
+        technique="exception-freedom, termination (variants) and frame conditions as postconditions, by symbolic execution of the real AST + SMT",
+        note=TRUST + "; format_address/getnameinfo, warnings.warn, logging, listener code assumed not to raise; defect D2 repaired by fix commit 9d60ab5",
+    ),
+    "C20": dict(
+        category="proof",
+        text="For every accepted input (arbitrary bytes) decode-encode-decode is proved per element: SOME/IP message (new bytes equal the consumed input), SD entry (raw indexes/counts kept), every option class incl. unknown types/payloads and raw protocol numbers, configuration strings (byte-identical re-encoding), SD flag byte (undefined bits kept); the element loops of the SD header and configuration option are tied to the element contracts by loop contracts.",
+        design_ref="DESIGN.md 4/C20",
+        technique="contract refinement + canonicalisation lemmas over the contracts, symbolic execution of the real AST + SMT",
+        note=TRUST + "; composition over the number of elements by the induction rule",
+    ),
 }
 
 NA_REASONS = {
